@@ -177,6 +177,13 @@ def _after_loop_rules(ctx: Ctx, sm, f):
 
     global_mutations(ctx, "R20.d", only_rel="sympytools.py")
 
+    ctx.rule("R20.e", "the expressions rhs_matrix substitutes into are those of the model: its table is keyed by the atoms' own symbols, which are the symbols gather_atoms registers for every kind of atom (a look-alike symbol of the same name is never substituted, and the partial derivatives through it vanish); the front end that builds the expressions is the one of R01.a-e", floor=20)
+    from .c01 import front_end
+    from .c13 import check_registered_symbols
+
+    check_registered_symbols(ctx, "R20.e")
+    front_end(ctx, {k_: "R20.e" for k_ in "abcde"}, declare=False)
+
     ctx.rule("R20.c", "jacobi_matrix differentiates rhs_matrix(ode) with respect to states_matrix(ode)", floor=1)
     j = sm.func("sympytools.py", "jacobi_matrix")
     jv = util.value_of(ctx, j)
